@@ -98,6 +98,27 @@ func c19Optional(c *Ctx, sx *symx.Ctx) {
 				rs := tr.Roots(x.Val)
 				good := len(rs) == 1 && rs[0].Kind == "call" && rs[0].Name == embPkg+".LoadWordVectors"
 				why := "the stored index is not (only) the result of embedding.LoadWordVectors"
+				// or the result of a loading helper that hands back nil or the index a
+				// successful LoadWordVectors produced, stored only when it is not nil
+				if !good && len(rs) == 1 && rs[0].Kind == "call" {
+					var hc *ssa.Call
+					switch v := rs[0].V.(type) {
+					case *ssa.Extract:
+						hc, _ = v.Tuple.(*ssa.Call)
+					case *ssa.Call:
+						hc = v
+					}
+					if hc != nil && c19LoadsIndexOrNil(c, hc.Common().StaticCallee()) {
+						nn := nonNilEdges(f, fn, f.E(x.Val))
+						if len(nn) > 0 && !ssau.ReachableAvoidingEdges(fn, x.Block(), nn) {
+							r.OK("O-1", key, c.P.Pos(x.Pos()), "stored only when the loading helper returned an index (which it does only after LoadWordVectors returned a nil error)")
+							return
+						}
+						why = "the result of the loading helper is stored without a non-nil test: a failed load would be stored as a nil index only by luck of the zero value"
+						r.OK("O-1", key, c.P.Pos(x.Pos()), "the loading helper returns nil or a loaded index; storing nil leaves the stage off")
+						return
+					}
+				}
 				if good {
 					var lc *ssa.Call
 					switch v := rs[0].V.(type) {
@@ -132,6 +153,27 @@ func c19Optional(c *Ctx, sx *symx.Ctx) {
 				nUses++
 				key := fmt.Sprintf("%s#use-%s", load.FuncKey(fn), cal.Name())
 				cut := nonNilEdges(f, fn, f.E(args[0]))
+				// the predicate form: db.HasEmbeddings() is exactly the non-nil test
+				// of the field (checked below) of the same database
+				for _, iff := range ssau.Ifs(fn) {
+					cond, neg := iff.Cond, false
+					if u, ok := cond.(*ssa.UnOp); ok && u.Op == token.NOT {
+						cond, neg = u.X, true
+					}
+					hc, ok := cond.(*ssa.Call)
+					if !ok || !strings.HasSuffix(ssau.CallName(hc), "Database).HasEmbeddings") || len(hc.Common().Args) != 1 {
+						continue
+					}
+					base, _ := ssau.IsFieldLoad(args[0], dbType, "embeddingIndex")
+					if hc.Common().Args[0] != base && f.E(hc.Common().Args[0]) != f.E(base) {
+						continue
+					}
+					side := 0
+					if neg {
+						side = 1
+					}
+					cut[[2]int{iff.Block().Index, side}] = true
+				}
 				guarded := len(cut) > 0 && !ssau.ReachableAvoidingEdges(fn, x.Block(), cut)
 				r.Check(guarded, "O-1", key, c.P.Pos(x.Pos()), "receiver use behind a non-nil test of the same value", "db.embeddingIndex."+cal.Name()+" is called without a dominating non-nil test of the field: with no embedding files loaded this dereferences nil")
 			}
@@ -363,7 +405,6 @@ func c19Boost(c *Ctx, sx *symx.Ctx) {
 // non-negative constant. Returns a description of what is wrong with the
 // shape ("" if fine), the guard found ("" if none) and alpha.
 func c19BoostValue(fn *ssa.Function, f *symx.Fn, val ssa.Value, isOld func(ssa.Value) bool, at *ssa.BasicBlock) (shape, guard string, alpha float64) {
-	var sim ssa.Value
 	mul, ok := val.(*ssa.BinOp)
 	if !ok || mul.Op != token.MUL {
 		return "the new score is not the old score times a factor: " + f.Plain(val), "", 0
@@ -375,6 +416,41 @@ func c19BoostValue(fn *ssa.Function, f *symx.Fn, val ssa.Value, isOld func(ssa.V
 	if !isOld(old) {
 		return "the factor is not applied to the same element's own score", "", 0
 	}
+	// the factor may be computed by a helper of the repository: each of its
+	// results is the constant 1 or 1 + alpha*<its parameter> behind the guard
+	if hc, isCall := factor.(*ssa.Call); isCall && len(hc.Common().Args) == 1 {
+		if g := hc.Common().StaticCallee(); g != nil && g.Blocks != nil && len(g.Params) == 1 && strings.HasPrefix(g.Pkg.Pkg.Path(), load.ModulePath) {
+			gf := f.Ctx().Of(g)
+			nBoost := 0
+			for _, ret := range ssau.ReturnsOf(g) {
+				rv := ssau.ResultValue(ret, 0)
+				if k, isC := ssau.ConstFloat(rv); isC && k == 1 {
+					continue
+				}
+				// as if the helper's own score were multiplied: old := a placeholder
+				sh, gd, al := c19FactorShape(g, gf, rv, ret.Block())
+				if sh != "" {
+					return sh, "", 0
+				}
+				if gd == "" {
+					return "", "", al
+				}
+				guard, alpha = gd, al
+				nBoost++
+			}
+			if nBoost > 0 {
+				return "", guard, alpha
+			}
+		}
+	}
+	return c19FactorShape(fn, f, factor, at)
+}
+
+// c19FactorShape: factor is 1 + alpha*sim (alpha a constant >= 0) and block at
+// is reachable only through the true side of sim >= (or >) a non-negative
+// constant.
+func c19FactorShape(fn *ssa.Function, f *symx.Fn, factor ssa.Value, at *ssa.BasicBlock) (shape, guard string, alpha float64) {
+	var sim ssa.Value
 	add, ok := factor.(*ssa.BinOp)
 	if !ok || add.Op != token.ADD {
 		return "the factor is not of the form 1 + alpha*sim: " + f.Plain(factor), "", 0
@@ -618,7 +694,7 @@ func headerSource(v ssa.Value, cells map[*ssa.Alloc]*ssa.Call) (*ssa.Alloc, ssa.
 				return nil, nil
 			}
 			g := call.Common().StaticCallee()
-			if g == nil || g.Blocks == nil || !strings.HasPrefix(ssau.FuncName(g), load.ModulePath) {
+			if g == nil || g.Blocks == nil || g.Pkg == nil || !strings.HasPrefix(g.Pkg.Pkg.Path(), load.ModulePath) {
 				return nil, nil
 			}
 			inner := decodedInts(g)
@@ -669,12 +745,34 @@ func c19Alloc(c *Ctx, sx *symx.Ctx) {
 		f := sx.Of(fn)
 		cells := decodedInts(fn)
 		// O-5 error discipline
-		for _, call := range callsMatching(fn, false, func(n string) bool {
+		isRead := func(n string) bool {
 			return n == "encoding/binary.Read" || n == "io.ReadFull" || n == "os.Open"
-		}) {
+		}
+		for _, call := range callsMatching(fn, false, isRead) {
 			nReads++
 			ok, why := failurePropagates(call)
 			r.Check(ok, "O-5", fmt.Sprintf("%s#%s-error-returned@%s", fk, shortName(ssau.CallName(call)), f.Plain(lastArg(call))), c.P.Pos(call.Pos()), "failure is returned", "a failed read is not returned as an error: "+why)
+		}
+		// reads made by reading helpers of the package: the helper hands the
+		// failure back, and every call of the helper in the loader returns it
+		ordH := newOrdinal()
+		for _, g := range withSteps(c, fn, 2) {
+			if g == fn {
+				continue
+			}
+			inner := callsMatching(g, false, isRead)
+			if len(inner) == 0 {
+				continue
+			}
+			for _, call := range inner {
+				nReads++
+				ok, why := failurePropagates(call)
+				r.Check(ok, "O-5", ordH.next(fmt.Sprintf("%s#%s-error-returned-by-%s", fk, shortName(ssau.CallName(call)), g.Name())), c.P.Pos(call.Pos()), "failure is returned by the reading helper", "a failed read is not returned as an error by the reading helper: "+why)
+			}
+			for _, site := range callsTo(fn, ssau.FuncName(g)) {
+				ok, why := failurePropagates(site)
+				r.Check(ok, "O-5", ordH.next(fmt.Sprintf("%s#%s-error-returned", fk, g.Name())), c.P.Pos(site.Pos()), "a failure of the reading helper is returned", "a failed read (in "+g.Name()+") is not returned as an error: "+why)
+			}
 		}
 		// sinks
 		ord := newOrdinal()
@@ -690,6 +788,30 @@ func c19Alloc(c *Ctx, sx *symx.Ctx) {
 			case *ssa.MakeMap:
 				if x.Reserve != nil {
 					sizes, what = []ssa.Value{x.Reserve}, "make("+shortName(x.Type().String())+")"
+				}
+			case *ssa.Call:
+				// a reading helper that allocates what one of its parameters says:
+				// the argument sizes the allocation
+				if g := x.Common().StaticCallee(); g != nil && g.Blocks != nil && c.P.IsRepoFunc(g) && g.Pkg == fn.Pkg {
+					ssau.ForEachInstr(g, false, func(i2 ssa.Instruction) {
+						mk, ok := i2.(*ssa.MakeSlice)
+						if !ok {
+							return
+						}
+						for _, sv := range []ssa.Value{mk.Len, mk.Cap} {
+							for d := 0; d < 3; d++ {
+								if cv, ok := sv.(*ssa.Convert); ok {
+									sv = cv.X
+								}
+							}
+							if p, ok := sv.(*ssa.Parameter); ok {
+								if i := paramIdx(g, p); i >= 0 && i < len(x.Common().Args) {
+									sizes = append(sizes, x.Common().Args[i])
+									what = g.Name() + ":make(" + shortName(mk.Type().String()) + ")"
+								}
+							}
+						}
+					})
 				}
 			}
 			for _, sz := range sizes {
@@ -996,4 +1118,33 @@ func c19Width(b *types.Basic) int {
 		return 4
 	}
 	return 8
+}
+
+// c19LoadsIndexOrNil: every return of g is nil or the index returned by a
+// LoadWordVectors call of g whose error was tested nil on the way.
+func c19LoadsIndexOrNil(c *Ctx, g *ssa.Function) bool {
+	if g == nil || g.Blocks == nil || !c.P.IsRepoFunc(g) || g.Signature.Results().Len() != 1 {
+		return false
+	}
+	n := 0
+	for _, ret := range ssau.ReturnsOf(g) {
+		v := ssau.ResultValue(ret, 0)
+		if ssau.IsNilConst(v) {
+			continue
+		}
+		ex, ok := v.(*ssa.Extract)
+		if !ok || ex.Index != 0 {
+			return false
+		}
+		lc, ok := ex.Tuple.(*ssa.Call)
+		if !ok || ssau.CallName(lc) != embPkg+".LoadWordVectors" {
+			return false
+		}
+		succ, _ := nilTests(errValue(lc))
+		if len(succ) == 0 || ssau.ReachableAvoidingEdges(g, ret.Block(), succ) {
+			return false
+		}
+		n++
+	}
+	return n > 0
 }
